@@ -125,18 +125,18 @@ let handle line =
       bump ("SCAN:" ^ label ^ ":" ^ (if rev then "rev" else "fwd") ^ ":" ^ (if failed then "fail" else "ok"));
       Hashtbl.replace distinct ("S" ^ hid ^ line) ();
       let oracle_ok = (not failed) && exps = ress in
-      let tr = parse_trace trace in
+      let tr = if trace = "!" then [] else parse_trace trace in
       (* precise class of the known defect F08b; everything else is "none" *)
       let cls = if rev && hi = [] && int_of_string nreg > 1 then "reverse-scan/unbounded-upper-end" else "none" in
       if not oracle_ok then propfail line ("scan<>expected\tclass=" ^ cls) exps;
       (* model replay against the recorded RPCs *)
-      let (prob, mout, mpanic) = replay_scan t ts lo hi batch ko rev tr in
+      let (prob, mout, mpanic) = if trace = "!" then (None, [], false) else replay_scan t ts lo hi batch ko rev tr in
       bump ("RPCS:" ^ string_of_int (min 9 (List.length tr)));
       (match prob with
        | Some p -> mismatch line ("scan-replay: " ^ p ^ "\tclass=" ^ cls)
        | None ->
            if mpanic then (if not (is_pref "panic" res) then mismatch line ("scan-replay: model panics\tclass=" ^ cls))
-           else if show_kvs ko mout <> ress then mismatch line ("scan-replay: output model=" ^ show_kvs ko mout ^ "\tclass=" ^ cls))
+           else if trace <> "!" && show_kvs ko mout <> ress then mismatch line ("scan-replay: output model=" ^ show_kvs ko mout ^ "\tclass=" ^ cls))
   | ["CLS"; fr; ttl; commit; act; ts; "=>"; res] ->
       incr n;
       let v = classify (fr = "1") { st_ttl = n_of_hex ttl; st_commit = n_of_hex commit; st_action = action_of act } (n_of_hex ts) in
@@ -179,6 +179,8 @@ let handle line =
       incr pn;
       bump ("LATER:" ^ res);
       if res <> "checked" then propfail line "later-lock-not-ignored" "no status check for a lock with start_ts > snapshot ts"
+  | "MODE" :: _ :: a :: c :: n :: _ ->
+      bump ("MODE:" ^ a ^ ":" ^ c ^ (if n = "asyncRPCs=0" then ":no-async-rpc" else ":async-rpcs"))
   | [] | [""] -> ()
   | _ -> mismatch line "unparsed line"
 
